@@ -128,7 +128,7 @@ impl Prop for P {
 
         // C API: mz_inflate (total_in / next_in) and tinfl_decompress
         {
-            let r = capi::mz_inflate_run(&data, t.zlib, &case.sched.chunks, &case.out_sizes, n + 64)?;
+            let r = capi::mz_inflate_run_f(&data, t.zlib, &case.sched.chunks, &case.out_sizes, n + 64, case.fill_seed & 1 == 1)?;
             vensure!(r.status == 1 && r.out == plain, "c06:not-decoded", "[mz_inflate] status {} out {} (want {n})", r.status, r.out.len());
             vensure!(r.total_in == enc && r.next_in_advance == enc, "c06:consumed-mismatch:mz_inflate", "[mz_inflate] stream is {enc} bytes; total_in {} next_in advanced {}", r.total_in, r.next_in_advance);
             let (st, cin, cout) = capi::tinfl_decompress_once(&data, zf | TINFL_FLAG_USING_NON_WRAPPING_OUTPUT_BUF, n + 1)?;
